@@ -237,7 +237,9 @@ class C02(Prop):
 
     def gen(self, rng, tier, seed):
         cfg = gen.gen_base_cfg(rng, seed, kids=(rng.random() < 0.2),
-                               stop_children_p=0.2,
+                               stop_children_p=0.2, max_age_p=0.1,
+                               stop_signals=(15, 15, 15, 2, 1, 10),
+                               respawn=rng.choice([True, True, True, False]),
                                kinds=('obedient', 'slow', 'stubborn',
                                       'selfexit', 'selective'))
         n = rng.choice([2, 3, 4, 6, 8]) if tier == 'quick' else \
